@@ -63,5 +63,17 @@ def setupSdKey (H : Bytes → Bytes) (e : Engine) (data : Bytes) : Except Err (E
     let e := e.setKeyslotBytes false 0x3A key true
     .ok (e, id0Of H key)
 
+/-- the key set-up of `SDFilesystem.__init__` / `SDRoot.__init__`: an SD key given as bytes (`sd_key`, when non-empty) has
+    priority over a movable.sed file (`sd_key_file`, here its content), which has priority over what the engine already holds
+    (`held` = the engine's ID0, `none` → `MissingMovableSedError`).  Whatever source is used REPLACES the engine's SD KeyY. -/
+def rootKey (H : Bytes → Bytes) (e : Engine) (held : Option Bytes) (sdKey : Bytes) (file : Option Bytes) : Except Err (Engine × Bytes) :=
+  if sdKey ≠ [] then setupSdKey H e sdKey
+  else match file with
+    | some d => setupSdKey H e d
+    | none =>
+      match held with
+      | some i => .ok (e, i)
+      | none => .error (.other "MissingMovableSedError")
+
 end Sd
 end Pyctr
